@@ -324,13 +324,25 @@ def header_reader_rules(prog, chk, pid):
             if ok:
                 r = raise_rel(brk[0])
                 want_atoms = 0
-                if r[0] == "and" and len(r[1]) == 2:
+                other = 0
+                if r[0] == "and" and len(r[1]) >= 2:
                     for a in r[1]:
+                        hit = False
+                        if a[0] == "rel" and a[1] == "Falsy" and (any(unsnap(a[2]) is v for v in tagf.int_views) or any(unsnap(a[2]) is v for v in lenf.int_views)):
+                            # `not (tag or len)`: an int is falsy exactly when it is 0
+                            want_atoms += 1
+                            hit = True
                         if a[0] == "rel" and a[1] == "Eq":
                             for x, y in ((a[2], a[3]), (a[3], a[2])):
                                 if is_const(y) and cval(y) == 0 and not isinstance(cval(y), bool) and (any(x is v for v in tagf.int_views) or any(x is v for v in lenf.int_views)):
                                     want_atoms += 1
-                ok = want_atoms == 2
+                                    hit = True
+                                # (tag, len, value) == (0, 0, b""): the value read with length 0 is empty anyway
+                                elif is_const(y) and cval(y) == b"" and unsnap(x) is unsnap(valf.result):
+                                    hit = True
+                        if not hit:
+                            other += 1
+                ok = want_atoms == 2 and other == 0
             why = "header loop does not stop exactly at the 00 00 terminator"
     chk.require(ok, P("header-grammar"), fi.qualname, show_reader(rd), where, "BEC2 header is parsed as TLV records (U8 tag, U8 len, value[len]) until tag = len = 0", why)
     return (fi, ex, res, rd, tagf, lenf, valf) if ok else None
@@ -373,8 +385,19 @@ def key_flow_rules(prog, chk, pid, hdr=None):
     result = unsnap(unp[0].d["result"])
     key_t = [t for t in (mk("sub", result, C(1)),)]
     # ---- disagreement guard
+    def is_key(x):
+        """x is the key the block unwrapped to -- possibly merged with the None that stands for "this block could not be opened" (then the comparison is only reached
+        for the unwrapped key: None is compared with nothing, the guard's own conditions or an earlier `continue` see to that)"""
+        x = unsnap(x)
+        if x is key_t[0]:
+            return True
+        if x.op == "phi":
+            arms = [unsnap(x.args[1]), unsnap(x.args[2])]
+            return any(is_key(a_) for a_ in arms) and all(is_key(a_) or a_ is NONE for a_ in arms)
+        return False
+
     def pred(op, a, b):
-        return op == "NotEq" and any(unsnap(x) is key_t[0] and unsnap(y).op == "loopvar" for x, y in ((a, b), (b, a)))
+        return op == "NotEq" and any(is_key(x) and unsnap(y).op == "loopvar" for x, y in ((a, b), (b, a)))
 
     gs = find_guards(ev, pred, allow_extra=True)
     okg = False
@@ -385,8 +408,9 @@ def key_flow_rules(prog, chk, pid, hdr=None):
             for a in (d[1] if d[0] == "and" else [d]):
                 if a[0] == "rel" and a[1] == "NotEq":
                     for x, y in ((a[2], a[3]), (a[3], a[2])):
-                        if unsnap(x) is key_t[0] and unsnap(y).op == "loopvar":
+                        if is_key(x) and unsnap(y).op == "loopvar":
                             common = unsnap(y)
+                            key_seen = unsnap(x)
         if common is None:
             continue
         extras = g.d.get("extra", [])
@@ -398,7 +422,7 @@ def key_flow_rules(prog, chk, pid, hdr=None):
         upd_ok = nxt is not None and any(unsnap(t) is key_t[0] for t in __import__("bfsa.terms", fromlist=["subterms"]).subterms(nxt)) and init is NONE
         # frames: only "unwrapped key is not None" may condition the guard
         conds = [f for f in g.ctx if f[0] == "if" and not any(l.cond is f[1] for l in ex.loops.values())]
-        cond_ok = all(_is_not_none_test(f, key_t[0]) or _is_not_none_test(f, common) for f in conds)
+        cond_ok = all(_is_not_none_test(f, key_t[0]) or _is_not_none_test(f, key_seen) or _is_not_none_test(f, common) for f in conds)
         if ok_extra and upd_ok and cond_ok:
             okg = True
             break
